@@ -4,7 +4,7 @@
    any failing log query) and all initial stored heads [h0]; the environment assumptions of the
    property text are the boolean checker [env_ok A h0 tr] with the relevant switches of [A] on. *)
 From Coq Require Import List NArith Bool.
-From V Require Import C17.Model C17.Proofs_A C17.Proofs_B C17.Proofs_C C17.Proofs_D C17.Proofs_E C17.Proofs_F C17.Proofs_G.
+From V Require Import C17.Model C17.Proofs_A C17.Proofs_B C17.Proofs_C C17.Proofs_D C17.Proofs_E C17.Proofs_F C17.Proofs_G C17.Proofs_H.
 Import ListNotations.
 Open Scope N_scope.
 
@@ -193,3 +193,27 @@ Example C17_provider_forward_removed_needed :
   obs_of (s_head (run None (sys_trace fw_drop_removed (s ++ [SPoll i])))) = Some (1, 1) /\
   expected None (s_live (run None (sys_trace fw_real (s ++ [SPoll i])))) 10 = None.
 Proof. vm_compute. auto. Qed.
+
+(* ---------- the start-up catch-up is complete ----------
+   On a fresh client, for EVERY chunk size > 0, every canonical history, latest and finalised
+   heights (fin1 read before the scan, fin2 inside setL1Head, fin1 <= fin2), when no log query
+   fails: the scan ends without error and the recorded head is the newest canonical update at or
+   below the finalised height among the blocks up to [latest] — however many chunks below the chunk
+   containing the finalised height it lies — or the previous head if there is none. *)
+Theorem C17_catchup_complete : forall h0 canon latest fin1 chunk fin2,
+  0 < chunk -> fin1 <= fin2 ->
+  let i := CatchUp canon latest fin1 chunk None fin2 in
+  commit_fin (init h0) i = Some fin2 /\
+  s_head (step (init h0) i) =
+  expected h0 (filter (fun e => u_l1 e <=? latest) canon) fin2.
+Proof. exact catchup_complete. Qed.
+Print Assumptions C17_catchup_complete.
+
+(* updates in L1 blocks 3 and 20, latest 25, finalised 12: the chunk that contains the finalised
+   height is empty for the small chunk sizes; the scan must go on below it *)
+Example catchup_below_the_finalised_chunk :
+  map (fun chunk => obs_of (s_head (step (init None)
+         (CatchUp [E 3 25 1; E 20 50 2] 25 12 chunk None 12))))
+      [1; 2; 3; 5; 10; 13; 1000]
+  = repeat (Some (25, 1)) 7.
+Proof. vm_compute. reflexivity. Qed.
